@@ -25,6 +25,7 @@ META = {
         "Not decided: that a re-loaded schema reproduces the same objects (execution)."
     ),
 }
+META["explanation"] += ' C15.R1 also: the child records the bond only after the parent accepted it; role fields are never cleared outside constructors. C15.R5: a role admitted without any type test is reported under a key that accepts every device id.'
 
 EB = "ramses_rf.entity_base"
 SC = "ramses_rf.schemas"
